@@ -44,36 +44,48 @@ def recScalar (n : Node) (T : Ty) (tag : String) : RecRes :=
 
 /-! ### lists and dicts: element-wise, re-wrapping an ambiguous element -/
 
-def recListItems (rec : Node → Ty → RecRes) (T itemTy : Ty) : List Node → RecRes
-  | [] => recOk T
+/-- the result once every element has been looked at: the first ambiguity, if there was one -/
+def recDone (T : Ty) (amb : Option RecOut) : RecRes :=
+  match amb with
+  | some r => .ok r
+  | none => recOk T
+
+/-- remember the first ambiguous element -/
+def noteAmb (amb : Option RecOut) (ts : List Ty) (wrap : Ty → Ty) (leaves : List Leaf) : Option RecOut :=
+  match amb with
+  | some r => some r
+  | none => if ts.length > 1 then some (ts.map wrap, leaves) else none
+
+def recListItems (rec : Node → Ty → RecRes) (T itemTy : Ty) (amb : Option RecOut) : List Node → RecRes
+  | [] => recDone T amb
   | x :: xs =>
     match rec x itemTy with
     | .error e => .error e
     | .ok (ts, leaves) =>
       if ts.length == 0 then .ok ([], leaves)          -- own message dropped: it has a cause
-      else if ts.length > 1 then .ok (ts.map (Ty.seq .list), leaves)
-      else recListItems rec T itemTy xs
+      else recListItems rec T itemTy (noteAmb amb ts (Ty.seq .list) leaves) xs
 
 def recList (rec : Node → Ty → RecRes) (n : Node) (T itemTy : Ty) : RecRes :=
   match n with
-  | .seq _ items _ => recListItems rec T itemTy items.toList
+  | .seq _ items _ => recListItems rec T itemTy none items.toList
   | _ => recFail [n.mark]
 
-def recDictPairs (rec : Node → Ty → RecRes) (T keyTy valTy : Ty) : List (Node × Node) → RecRes
-  | [] => recOk T
+def recDictPairs (rec : Node → Ty → RecRes) (T keyTy valTy : Ty) (amb : Option RecOut) :
+    List (Node × Node) → RecRes
+  | [] => recDone T amb
   | (k, v) :: rest =>
     match rec k keyTy with
     | .error e => .error e
     | .ok (kts, kl) =>
       if kts.length == 0 then .ok ([], kl)
-      else if kts.length > 1 then .ok (kts.map (fun t => Ty.map .dict t valTy), kl)
       else
         match rec v valTy with
         | .error e => .error e
         | .ok (vts, vl) =>
           if vts.length == 0 then .ok ([], vl)
-          else if vts.length > 1 then .ok (vts.map (fun t => Ty.map .dict keyTy t), vl)
-          else recDictPairs rec T keyTy valTy rest
+          else recDictPairs rec T keyTy valTy
+                (noteAmb (noteAmb amb kts (fun t => Ty.map .dict t valTy) kl) vts (fun t => Ty.map .dict keyTy t) vl)
+                rest
 
 /-- is the key type a class on which `is_string_like` holds (`str` or a string-like class)? -/
 def keyTypeOk (env : Env) : Ty → Bool
@@ -84,7 +96,7 @@ def keyTypeOk (env : Env) : Ty → Bool
 def recDict (env : Env) (rec : Node → Ty → RecRes) (n : Node) (T keyTy valTy : Ty) : RecRes :=
   if !keyTypeOk env keyTy then .error .dictKey
   else match n with
-    | .map _ ps _ => recDictPairs rec T keyTy valTy ps.toList
+    | .map _ ps _ => recDictPairs rec T keyTy valTy none ps.toList
     | _ => recFail [n.mark]
 
 /-! ### unions -/
